@@ -166,6 +166,13 @@ class World:
             parts = rest.split('+')
             if cname == 'Color':
                 o = Color[parts[0]]
+            elif cname == 'type':
+                # the CLASS OBJECT itself as a value (the very object a `ty` pattern node denotes)
+                return self.cls(parts[0])
+            elif cname == 'function':
+                # the FUNCTION OBJECT itself (the very object a `pred` node of form 'fn' denotes)
+                fn, pid = parts[0].rsplit('_', 1)
+                return make_pred(int(pid), fn, 'fn')
             else:
                 o = self.cls(cname)()
                 for a in parts[1:]:
@@ -254,6 +261,18 @@ def enc_v(v):
         return {'obj': 'rawT'}
     if type(v) is Color:
         return {'obj': 'Color#' + v.name}
+    if isinstance(v, type):
+        n = v.__name__
+        try:
+            known = WORLD.cls(n) is v
+        except Exception:
+            known = False
+        if known:
+            return {'obj': 'type#' + n}
+        raise Unencodable(v)
+    qn = getattr(v, '__qualname__', '')
+    if isinstance(qn, str) and qn.startswith('_pred_') and globals().get(qn) is v:
+        return {'obj': 'function#' + qn[len('_pred_'):]}
     for b in (dict, list, tuple, set, frozenset, str):
         if isinstance(v, b) and WORLD.classes.get(type(v).__name__) is type(v):
             return {'sub': type(v).__name__, 'v': enc_v(b(v))}
